@@ -117,6 +117,11 @@ def select(pid, tier, seed):
     for h in PROPS[pid]["harnesses"]:
         t = h.get("tier", "both")
         if t == "both" or t == tier:
+            if t == "thorough" and h.get("kind", "prove") == "prove":
+                # deeper bounds: attempted under their caps; if one cannot be decided the
+                # evidence says so and the verdict rests on the bounds that were decided
+                h = dict(h)
+                h.setdefault("optional", True)
             out.append(h)
     return out
 
